@@ -1,0 +1,22 @@
+"""
+# Verification hooks
+
+Inert unless the environment variable `HDL21_VERIF` is set to `1` *and* a sink has been installed with `set_sink`.
+Used by external conformance-checking harnesses to observe elaboration-pass visits and exported packages.
+"""
+
+import os
+
+ENABLED = os.environ.get("HDL21_VERIF", "") == "1"
+_sink = None
+
+
+def set_sink(sink) -> None:
+    """Install (or with `None`, remove) the callable receiving `(event, fields)`."""
+    global _sink
+    _sink = sink
+
+
+def emit(event: str, **fields) -> None:
+    if ENABLED and _sink is not None:
+        _sink(event, fields)
